@@ -29,7 +29,7 @@ RULE = ('a case = generated graph history (as C07) + pack time + gc + mode; mode
         'commit that returned is in the storage and in the reopened packed file unless its revisions were superseded not later '
         'than the pack time, derived-from chain intact, readers saw consistent snapshots, the second pack is refused or '
         'completes; non-trivial thread case = a commit returned between pack start and pack end; distinct by (directory image '
-        'hash | case hash, fault index)')
+        'hash | case hash, fault index); later additions: catch-up and swap-moment schedule strategies, readers asking the storage directly (getTid/history/loadSerial/lastTransaction/undoLog), packs without keeping the old file')
 ASSUMPTIONS = ['crash model: prefix of the recorded operations across the five files in issue order; renames/removes atomic',
                'thread cases: preemption only at the scheduler\'s yield points (ZODB lock/condition operations, storage file '
                'operations, lines of the watched pack/commit/undo functions); schedules are sampled']
